@@ -418,7 +418,7 @@ STANDINS = {
                                  'change that makes the annotations inapplicable (new helper, restructured loop) still meets a concrete check',
              'bound': 'every argument vector of 0..3 units over 27 server units / 23 client units (all flags, short and long forms, valid, invalid and missing values, existing and missing '
                       'directories, unknown flag) - about 33 000 vectors; -h/--help left out (ends the process)'}],
-    'C14': [{'name': 'bounded_client', 'bin': 'bounded_client', 'extract': False, 'confirm': True, 'args': {'quick': ['quick'], 'thorough': ['full']},
+    'C14': [{'name': 'bounded_client', 'bin': 'bounded_client', 'extract': False, 'confirm': True, 'bins': True, 'args': {'quick': ['quick'], 'thorough': ['full']},
              'assumed_contract': 'interoperation of the bundled client and server (Client::upload / Client::download are outside Verus; two endpoints over UDP are not a function contract): '
                                  'byte-identical files on both sides, download stored under the base name in the receive directory, refusals create no file',
              'bound': 'real Client against real Server on loopback: {download, upload} x blksize {8,512,1468} x windowsize {1,3} x timeout 2 x 8 file sizes around block/window '
@@ -476,6 +476,13 @@ def run_standins(pid, tier='quick'):
             if e.returncode != 0:
                 res.append({'name': x['name'], 'error': e.stdout.strip()[:300]})
                 continue
+        if x.get('bins'):
+            # the real binaries of the crate under test (main.rs / client_main.rs), built into the replay crate's target directory
+            tdir = os.path.join(rdir, 'target', 'repo-bins')
+            b = subprocess.run(['cargo', 'build', '--offline', '-q', '--release', '--features', 'client', '--manifest-path', os.path.join(REPO, 'Cargo.toml'),
+                                '--target-dir', tdir], env=env, stdout=subprocess.PIPE, stderr=subprocess.STDOUT, text=True)
+            if b.returncode == 0:
+                env = dict(env, VERIF_TFTPD=os.path.join(tdir, 'release', 'tftpd'), VERIF_TFTPC=os.path.join(tdir, 'release', 'tftpc'))
         cmd = ['cargo', 'run', '--offline', '-q', '--release', '--bin', x['bin']] + (['--'] + x['args'][tier] if x.get('args') else [])
         p = subprocess.run(cmd, cwd=rdir, env=env, stdout=subprocess.PIPE, stderr=subprocess.STDOUT, text=True)
         out = p.stdout.strip().split('\n')
